@@ -3,6 +3,7 @@ package main
 // Symbolic interpreter over go/ssa.
 
 import (
+	"sync"
 	"fmt"
 	"go/constant"
 	"go/token"
@@ -42,9 +43,11 @@ type inputVar struct {
 }
 
 type fnInfo struct {
-	idx   map[ssa.Value]int
-	n     int
-	instr int
+	idx       map[ssa.Value]int
+	n         int
+	instr     int
+	ipdom     []int
+	ipdomOnce sync.Once
 }
 
 type Frame struct {
@@ -94,6 +97,7 @@ type Interp struct {
 	tainted      string
 	sched        *schedState
 	goInline     bool
+	noMerge      bool
 	makeBound    int
 	abstract     map[string]bool
 	pristine     *pristineHeap
@@ -580,6 +584,7 @@ func (in *Interp) runFrame(fr *Frame) {
 
 func (in *Interp) runBlocks(fr *Frame, start *ssa.BasicBlock) {
 	blk := start
+	skipPhi := false
 	for blk != nil {
 		fr.block = blk
 		fr.visits[blk.Index]++
@@ -596,7 +601,9 @@ func (in *Interp) runBlocks(fr *Frame, start *ssa.BasicBlock) {
 				break
 			}
 		}
-		if nphi > 0 {
+		if skipPhi {
+			skipPhi = false
+		} else if nphi > 0 {
 			vals := make([]Value, nphi)
 			pi := -1
 			for i, p := range blk.Preds {
@@ -626,6 +633,13 @@ func (in *Interp) runBlocks(fr *Frame, start *ssa.BasicBlock) {
 			switch x := ins.(type) {
 			case *ssa.If:
 				c := in.get(fr, x.Cond).(*Term)
+				if !c.IsConst() {
+					if j := in.tryMerge(fr, blk, c); j != nil {
+						next = j
+						skipPhi = true
+						break
+					}
+				}
 				if in.branch(c) {
 					next = blk.Succs[0]
 				} else {
